@@ -185,7 +185,6 @@ IGN = {
     "StmtMacro": {"semi_token"},
     "TraitBound": {"paren_token"},
     "Type::TraitObject": {"dyn_token"},
-    "LifetimeParam": {"colon_token", "bounds"},
     "Local": {},
 }
 # ignored by the matcher although not presentation (a finding of C09) / optional child where a missing side matches anything
@@ -296,6 +295,9 @@ def decode(d):
                 kids.append(_decode_abi(v))
             else:
                 kids.append(decode(v))
+        if name == "TypeParamBound::Lifetime":
+            # syn prints this variant flattened; restore the `Lifetime` node every other position has
+            return N(name, [], [N("Lifetime", [], kids)])
         t = N(name, [], kids)
         if name == "Type::Path":
             qself, path = kids[0], kids[1]
